@@ -213,7 +213,9 @@ func (b *backendConfigSessionHandler) handlePluginMessage(pc *proto.PacketContex
 		_ = b.serverConn.player.WritePacket(plugin.RewriteMinecraftBrand(p,
 			b.serverConn.player.Protocol()))
 	} else {
-		bytes := pc.Payload
+		// The event carries the message body (not the raw packet: id + channel + body).
+		bytes := make([]byte, len(p.Data))
+		copy(bytes, p.Data)
 		id, ok := b.proxy().ChannelRegistrar().FromID(p.Channel)
 		if !ok {
 			b.forwardToPlayer(pc, nil)
@@ -230,7 +232,8 @@ func (b *backendConfigSessionHandler) handlePluginMessage(pc *proto.PacketContex
 			data:       bytes,
 		}, func(pme *PluginMessageEvent) {
 			if pme.Allowed() && b.serverConn.active() {
-				b.forwardToPlayer(pc, &plugin.Message{
+				// forward what the event's handlers saw, not the original raw payload
+				b.forwardToPlayer(nil, &plugin.Message{
 					Channel: p.Channel,
 					Data:    pme.Data(),
 				})
